@@ -128,7 +128,11 @@ impl RngCore for ScriptRng {
             Some(Reply::FailCode(code, b)) => {
                 let n = b.len().min(dest.len());
                 dest[..n].copy_from_slice(&b[..n]);
-                Err(rand_core::Error::from(core::num::NonZeroU32::new(code).expect("harness: non-zero code")))
+                // code 0: an error that carries no numeric code at all (a boxed std error; Error::code() is None)
+                match core::num::NonZeroU32::new(code) {
+                    Some(c) => Err(rand_core::Error::from(c)),
+                    None => Err(rand_core::Error::new("harness: code-less generator failure")),
+                }
             }
             None => Err(rng_err()),
         }
